@@ -3,8 +3,8 @@
    and the lend rate never exceeds the borrow rate.
    Property theorems only; each is closed by a lemma proved in Proofs/.  Dec values are their
    10^18-scaled integers ("ulp" = 10^-18); floats are integers in units of 2^-1074.          *)
-From Comdex Require Import Lib.Base Lib.DecArith Lib.F64 Model.Accrual Model.AccrualFast Model.Pow Model.Rates
-  Proofs.AccrualProofs Proofs.AccrualFastProofs Proofs.PowProofs Proofs.RatesProofs.
+From Comdex Require Import Lib.Base Lib.DecArith Lib.F64 Model.Accrual Model.AccrualFast Model.Pow Model.Rates Model.AccrualSites
+  Proofs.AccrualProofs Proofs.AccrualFastProofs Proofs.PowProofs Proofs.RatesProofs Proofs.AccrualSitesProofs.
 
 (* ============ (i) index accrual: CalculateLendReward / CalculateBorrowInterest ============ *)
 (* how the three lend functions reach the common step: negative elapsed time is an error, a
@@ -334,6 +334,144 @@ Theorem c18_cmp_subadditive_partial : forall en f1 f2 f12, F_ONE <= f1 -> F_ONE 
 Proof. exact cmp_core_subadd. Qed.
 Print Assumptions c18_cmp_subadditive_partial.
 
+(* ============ (iv) the accrual sites ============ *)
+(* The keeper functions that select principal, rate and time base from the stored records, call
+   the accrual function, carry the fraction in a tracker and add the whole units to the record
+   (Model/AccrualSites.v).  "record" is Vault.InterestAccumulated / Locker.NetBalance /
+   LendAsset.AvailableToBorrow; Dec records are BorrowAsset.InterestAccumulated and the reserve
+   share BorrowInterestTracker.ReservePoolInterest. *)
+
+(* what the correspondence run executes for the float sites IS the model *)
+Theorem c18_sites_fast_model : forall pow now,
+  (forall v, vault_interest_with (calculation_of_rewards_fast pow) now v = vault_interest pow now v) /\
+  (forall lsr cbt vbh vbt amt tr ia, vault_iterate_one_with (calculation_of_rewards_fast pow) now lsr cbt vbh vbt amt tr ia
+                                     = vault_iterate_one pow now lsr cbt vbh vbt amt tr ia) /\
+  (forall l, locker_rewards_with (calculation_of_rewards_fast pow) now l = locker_rewards pow now l).
+Proof.
+  intros. split; [intros; apply vault_interest_fast_eq|]. split; [intros; apply vault_iterate_one_fast_eq|intros; apply locker_rewards_fast_eq].
+Qed.
+Print Assumptions c18_sites_fast_model.
+
+(* stability fee on a vault: which operands the site uses, and that one step neither creates nor
+   loses anything: InterestAccumulated' + tracker' = InterestAccumulated + tracker + accrued, the
+   record never decreases, the tracker stays a fraction *)
+Theorem c18_site_vault : forall pow now v x p t' r',
+  vault_interest pow now v = Ok (Updated x p t' r') ->
+  let bt := if vs_bh v =? 0 then vs_pair_bt v else vs_bt v in
+  0 <= now - bt /\ x = cmp_new pow (vs_debt v) (vs_fee v) (now - bt) /\
+  (0 <= tracker_val (vs_tracker v) < P18 -> 0 <= x ->
+     holds_C18_site_step (tracker_val (vs_tracker v)) (vs_intacc v) x p t' r' = true /\
+     r' * P18 + t' = vs_intacc v * P18 + tracker_val (vs_tracker v) + x /\ vs_intacc v <= r' /\ 0 <= t' < P18).
+Proof.
+  intros pow now v x p t' r' E. apply vault_interest_spec in E as (_ & _ & _ & _ & A & B & C & D).
+  unfold vault_bt in *. cbv zeta. split; [exact A|]. split; [exact B|]. intros Ht Hx. subst r'.
+  pose proof (site_carry_spec _ _ _ _ Ht Hx C) as (S1 & S2 & S3 & _).
+  split; [apply site_step_holds; assumption|]. split; [lia|]. split; lia.
+Qed.
+Print Assumptions c18_site_vault.
+
+(* zero elapsed time at the vault site changes neither the record nor the tracker: NO hypothesis
+   on math.Pow (its y == 0 case is modelled exactly) *)
+Theorem c18_site_vault_zero_time : forall core now v x p t' r',
+  vault_interest (go_pow core) now v = Ok (Updated x p t' r') ->
+  now = (if vs_bh v =? 0 then vs_pair_bt v else vs_bt v) -> 0 <= tracker_val (vs_tracker v) < P18 ->
+  x = 0 /\ p = 0 /\ t' = tracker_val (vs_tracker v) /\ r' = vs_intacc v.
+Proof.
+  intros core now v x p t' r' E Hn Ht. apply vault_interest_spec in E as (_ & _ & _ & _ & A & B & C & D).
+  unfold vault_bt in *. rewrite <- Hn in B. rewrite Z.sub_diag in B. rewrite cmp_zero_time_go in B. subst x.
+  apply site_carry_zero in C; [|assumption]. lia.
+Qed.
+Print Assumptions c18_site_vault_zero_time.
+
+(* savings on a locker: operands, conservation, and what is paid leaves the collector's net fees *)
+Theorem c18_site_locker : forall pow now l x p t' net ret nf,
+  locker_rewards pow now l = Ok (LUpdated x p t' net ret nf) ->
+  let bt := if ls_bh l =? 0 then ls_coll_bt l else ls_bt l in
+  0 <= now - bt /\ x = cmp_new pow (ls_balance l) (ls_lsr l) (now - bt) /\
+  net = ls_net l + p /\ ret = ls_returns l + p /\ nf = tracker_val (ls_netfee l) - p /\ (0 < p -> 0 <= nf) /\
+  (0 <= tracker_val (ls_tracker l) < P18 -> 0 <= x ->
+     holds_C18_site_step (tracker_val (ls_tracker l)) (ls_net l) x p t' net = true /\
+     net * P18 + t' = ls_net l * P18 + tracker_val (ls_tracker l) + x /\ ls_net l <= net /\ 0 <= t' < P18).
+Proof.
+  intros pow now l x p t' net ret nf E. apply locker_rewards_spec in E as (A & B & C & D & F & G & H).
+  unfold locker_bt in *. cbv zeta. repeat (split; [assumption|]). intros Ht Hx. subst net.
+  pose proof (site_carry_spec _ _ _ _ Ht Hx C) as (S1 & S2 & S3 & _).
+  split; [apply site_step_holds; assumption|]. split; [lia|]. split; lia.
+Qed.
+Print Assumptions c18_site_locker.
+
+Theorem c18_site_locker_zero_time : forall core now l x p t' net ret nf,
+  locker_rewards (go_pow core) now l = Ok (LUpdated x p t' net ret nf) ->
+  now = (if ls_bh l =? 0 then ls_coll_bt l else ls_bt l) -> 0 <= tracker_val (ls_tracker l) < P18 ->
+  x = 0 /\ p = 0 /\ t' = tracker_val (ls_tracker l) /\ net = ls_net l /\ ret = ls_returns l.
+Proof.
+  intros core now l x p t' net ret nf E Hn Ht. apply locker_rewards_spec in E as (A & B & C & D & F & G & H).
+  unfold locker_bt in *. rewrite <- Hn in B. rewrite Z.sub_diag in B. rewrite cmp_zero_time_go in B. subst x.
+  apply site_carry_zero in C; [|assumption]. lia.
+Qed.
+Print Assumptions c18_site_locker_zero_time.
+
+(* a whole history of accruals of one float-site position at times now_1 <= now_2 <= ... (each
+   call starts at the time the previous one stored; the principal of a call is c + record):
+   record_n + tracker_n = record_0 + tracker_0 + (sum of the accruals), the record never
+   decreases, the tracker stays a fraction.  Premise on math.Pow: PowMonoBox only. *)
+Theorem c18_site_history : forall core, PowMonoBox (go_pow core) ->
+  forall c rate nows bt tracker record, 0 <= rate -> rate <= LSR_MAX ->
+  0 <= tracker < P18 -> 0 <= c + record -> ascending bt nows -> last_or bt nows - bt <= SECS_MAX ->
+  let '(bt', tr', rec', sum) := site_run (go_pow core) c rate bt tracker record nows in
+  rec' * P18 + tr' = record * P18 + tracker + sum /\ 0 <= tr' < P18 /\ record <= rec' /\ 0 <= sum /\ bt' = last_or bt nows.
+Proof.
+  intros core M c rate nows bt tracker record Hr0 Hr1. apply site_run_spec.
+  intros amt secs Ha Hs Hs'. apply cmp_nonneg_box; assumption.
+Qed.
+Print Assumptions c18_site_history.
+
+(* triggering the accrual more often on the same principal (the case in which the first call paid
+   no whole unit) can make the position owe at most the accrual excess x1 + x2 - x12 more, rounded
+   up to the next whole unit: conservation turns the sub-additivity of the accrual function
+   (c18_cmp_subadditive_partial, c18_idx_subadditive) into a bound on the RECORD *)
+Theorem c18_site_more_often : forall tracker record x1 x2 x12 p1 t1 p2 t2 p12 t12,
+  0 <= tracker < P18 -> 0 <= x1 -> 0 <= x2 -> 0 <= x12 ->
+  site_carry (Some tracker) x1 = (p1, t1) -> site_carry (Some t1) x2 = (p2, t2) -> site_carry (Some tracker) x12 = (p12, t12) ->
+  ((record + p1 + p2) - (record + p12)) * P18 < (x1 + x2 - x12) + P18 /\
+  (x1 + x2 <= x12 -> record + p1 + p2 <= record + p12).
+Proof.
+  intros tracker record x1 x2 x12 p1 t1 p2 t2 p12 t12 Ht H1 H2 H12 E1 E2 E12.
+  pose proof (site_carry_spec (Some tracker) x1 p1 t1 Ht H1 E1) as (A1 & A2 & A3 & _). cbn [tracker_val] in *.
+  pose proof (site_carry_spec (Some t1) x2 p2 t2 A3 H2 E2) as (B1 & B2 & B3 & _). cbn [tracker_val] in *.
+  pose proof (site_carry_spec (Some tracker) x12 p12 t12 Ht H12 E12) as (C1 & C2 & C3 & C4). cbn [tracker_val] in *.
+  pose proof DecFacts.P18_pos. split; [nia|]. intros Hle. nia.
+Qed.
+Print Assumptions c18_site_more_often.
+
+(* lend reward site *)
+Theorem c18_site_lend : forall now last amt apr gi tr x p t' igc,
+  0 <= amt -> 0 <= apr -> 0 < gi -> 0 <= tracker_val tr < P18 ->
+  lend_site now last amt apr gi tr = Ok (x, p, t', igc) ->
+  0 <= x /\ p * P18 + t' = tracker_val tr + x /\ 0 <= p /\ 0 <= t' < P18 /\
+  (lend_secs now last = 0 -> x = 0 /\ p = 0 /\ t' = tracker_val tr).
+Proof. exact lend_site_spec. Qed.
+Print Assumptions c18_site_lend.
+
+(* borrow interest site, variable and stable-rate, and the reserve share: never decrease, unchanged
+   over zero time, the stored indices never decrease *)
+Theorem c18_site_borrow : forall now b s ia' res' igc rigc,
+  0 <= bs_amt b -> 0 <= bs_apr b -> 0 <= bs_rrate b -> 0 <= bs_stable_rate b -> 0 < bs_gi b -> 0 < bs_rgi b ->
+  borrow_site_step now b = Ok (s, ia', res', igc, rigc) ->
+  0 <= s /\ ia' = bs_intacc b + s /\ tracker_val (bs_reserve b) <= res' /\ bs_gi b <= igc /\ bs_rgi b <= rigc /\
+  (lend_secs now (bs_last b) = 0 -> s = 0 /\ res' = tracker_val (bs_reserve b) /\ igc = bs_gi b /\ rigc = bs_rgi b).
+Proof. exact borrow_site_spec. Qed.
+Print Assumptions c18_site_borrow.
+
+(* reserve factor: the reserve rate is the part of the average borrow rate not passed on to the
+   lenders, between 0 and that average; the average lies between the two borrow rates *)
+Theorem c18_reserve_rate : forall avg u rf r bapr sapr bo sb,
+  (0 <= avg -> 0 <= u <= P18 -> 0 <= rf <= P18 -> reserve_rate avg u rf = Some r -> 0 <= r <= avg) /\
+  (0 <= bapr -> 0 <= sapr -> 0 <= bo -> 0 <= sb -> average_borrow_rate bapr sapr bo sb = Ok avg ->
+     Z.min bapr sapr <= avg <= Z.max bapr sapr).
+Proof. intros. split; [apply reserve_rate_range|apply average_borrow_rate_range]. Qed.
+Print Assumptions c18_reserve_rate.
+
 (* ============ non-vacuity ============ *)
 Example c18_idx_nonvacuous :
   lend_reward 1700086400 1700000000 1000000000 50000000000000000 P18
@@ -371,3 +509,16 @@ Proof.
   - reflexivity.
   - vm_compute. reflexivity.
 Qed.
+
+Example c18_sites_nonvacuous :
+  let core := fun x y : Z => x in
+  (* a vault with debt 10^9 at 10 %, accrued one year after its block time, tracker 0.6 *)
+  vault_interest (go_pow core) 1731557600 (mkVS true true 100000000000000000 false 0 77 1700000000 1000000000 (Some 600000000000000000) 5)
+    = Ok (Updated 100000000000000089406967163 100000000 600000089406967163 100000005) /\
+  (* one second of 5 % on 1000 lent at index 1: below one unit, carried *)
+  lend_site 1700000001 1700000000 1000 50000000000000000 P18 None = Ok (1584404391000, 0, 1584404391000, 1000000001584404391) /\
+  (* stable-rate borrow: the stable interest is what is added *)
+  borrow_site_step 1731557600 (mkBS true 50000000000000000 10000000000000000 200000000000000000 1000 1700000000 P18 P18 0 None)
+    = Ok (200000000000000000000, 200000000000000000000, 10000000000000000000, 1050000000000000000, 1010000000000000000) /\
+  reserve_rate 100000000000000000 500000000000000000 200000000000000000 = Some 60000000000000000.
+Proof. vm_compute. repeat split. Qed.
